@@ -88,7 +88,7 @@ pub fn generate_c26(seed: u64, tier: Tier) -> Plan {
             4..=7 => Op::Delete { u: *g.pick(&all) },
             8..=10 => Op::Revive { u: *g.pick(&all) },
             11 => Op::Touch { u: *g.pick(&all) },
-            12..=14 => Op::Advance { secs: *g.pick(&[1, 60, 3600, day, 3 * day, win - 1, win, win + 1, win + 2, 2 * win + 5, CHANGELOG_MAX_AGE + 1]) },
+            12..=14 => Op::Advance { secs: *g.pick(&[1, 60, 3600, day, 3 * day, win - 1800, win - 100, win - 10, win - 3, win - 2, win - 1, win, win + 1, win + 2, 2 * win + 5, CHANGELOG_MAX_AGE - 3, CHANGELOG_MAX_AGE + 1]) },
             15 | 16 => Op::PurgeRecycled,
             17 | 18 => Op::PurgeTombstones,
             _ => {
@@ -327,14 +327,40 @@ fn user_view(e: &EntryArc) -> BTreeMap<String, Vec<String>> {
     m
 }
 
+/// Every stored attribute of an entry (canonical JSON per attribute), for the whole-entry
+/// comparison of user-created entries across the upgrade.
+fn full_view(e: &EntryArc) -> BTreeMap<String, String> {
+    crate::dump::entry_json(e).pointer("/ent/V3/attrs").and_then(|a| a.as_object()).map(|m| m.iter().map(|(k, v)| (k.clone(), v.to_string())).collect()).unwrap_or_default()
+}
+
+/// Attributes of a user-created entry the upgrade may legitimately rewrite: bookkeeping, and
+/// values derived from built-in entries that the new level redefines.
+/// `hmac_name_history` is maintained by the server, not set by users, and on the pinned tree it is
+/// rewritten by every server start while the name-history feature is enabled (the in-memory
+/// feature state starts as "off", so `reload_feature_config` runs `HmacNameUnique::fixup`): the
+/// statement does not cover it and an upgrade cannot be told from a restart there.
+const C48_DERIVED: [&str; 6] = ["class", "last_modified_cid", "created_at_cid", "memberof", "directmemberof", "hmac_name_history"];
+
+/// uuids the workload itself created (`uuid_for`): memorials and other entries the server creates
+/// on its own carry random uuids and are not user-created entries.
+fn is_workload_uuid(u: &Uuid) -> bool {
+    let b = u.as_bytes();
+    b[0] & 0xf0 == 0xe0 && b[1] == 0x51 && b[2..6] == [0, 0, 0, 0]
+}
+
 pub fn generate_c48(seed: u64, tier: Tier) -> Plan {
     let mut g = Rng::stream(seed, "workload");
     let n = if tier == Tier::Quick { 10 + g.below(20) } else { 10 + g.below(60) };
     let mut evs = vec![];
     // members added to built-in groups are user content too
     let builtin_groups = ["idm_admins", "idm_people_admins", "idm_group_admins", "idm_service_desk"];
+    // the name-history feature is off by default; an administrator may have switched it on
+    if g.chance(1, 2) {
+        evs.push(json!({"op":"EnableNameHistory","id": 0}));
+    }
     for i in 0..n {
-        let v = match g.below(6) {
+        let v = match g.below(7) {
+            6 => json!({"op":"Rename","u": uuid_for(1, g.below(i.max(1))), "name": format!("upr{i}"), "id": i+1}),
             0 | 1 => json!({"op":"Person","u": uuid_for(1, i), "name": format!("up{i}"), "id": i+1}),
             2 => json!({"op":"Group","u": uuid_for(2, i), "name": format!("ug{i}"), "members": [uuid_for(1, g.below(i.max(1)))], "id": i+1}),
             3 => json!({"op":"JoinBuiltin","group": g.pick(&builtin_groups), "m": uuid_for(1, g.below(i.max(1))), "id": i+1}),
@@ -373,6 +399,14 @@ pub fn execute_c48(plan: &Plan) -> Outcome {
                 "JoinBuiltin" => w.internal_modify(&filter!(f_eq(Attribute::Name, PartialValue::new_iname(&s("group")))), &ModifyList::new_append(Attribute::Member, Value::Refer(u("m")))),
                 "Desc" => w.internal_modify_uuid(u("u"), &ModifyList::new_purge_and_set(Attribute::Description, Value::new_utf8s(&s("v")))),
                 "Delete" => w.internal_delete_uuid(u("u")),
+                "Rename" => w.internal_modify_uuid(u("u"), &ModifyList::new_purge_and_set(Attribute::Name, Value::new_iname(&s("name")))),
+                "EnableNameHistory" => {
+                    let r = w.internal_modify_uuid(UUID_HMAC_NAME_FEATURE, &ModifyList::new_purge_and_set(Attribute::Enabled, Value::Bool(true)));
+                    if r.is_ok() {
+                        out.probe("name-history feature enabled at the previous level");
+                    }
+                    r
+                }
                 _ => Ok(()),
             };
             out.events_run += 1;
@@ -384,6 +418,10 @@ pub fn execute_c48(plan: &Plan) -> Outcome {
         let before: BTreeMap<Uuid, (EState, BTreeMap<String, Vec<String>>)> = {
             let mut r = block(qs.read()).map_err(|e| format!("{e:?}"))?;
             crate::dump::search_all(&mut r).map_err(|e| format!("{e:?}"))?.iter().filter(|e| e.get_uuid().as_bytes()[0] >= 0xe0).map(|e| (e.get_uuid(), (entry_state(e), user_view(e)))).collect()
+        };
+        let full_before: BTreeMap<Uuid, BTreeMap<String, String>> = {
+            let mut r = block(qs.read()).map_err(|e| format!("{e:?}"))?;
+            crate::dump::search_all(&mut r).map_err(|e| format!("{e:?}"))?.iter().filter(|e| is_workload_uuid(&e.get_uuid()) && entry_state(e) == EState::Live).map(|e| (e.get_uuid(), full_view(e))).collect()
         };
         let builtin_members_before: BTreeMap<Uuid, BTreeSet<Uuid>> = {
             let mut r = block(qs.read()).map_err(|e| format!("{e:?}"))?;
@@ -428,6 +466,20 @@ pub fn execute_c48(plan: &Plan) -> Outcome {
                         if entry_state(e) != *st {
                             out.violate("C48", "user-entry-kept", &format!("user entry changed state {tag}"), format!("{tag}: {u} {st:?} -> {:?}", entry_state(e)), 0);
                         } else if *st == EState::Live {
+                            // every other stored attribute of a user-created entry: the upgrade has
+                            // no business changing it (user-set or maintained from user actions)
+                            if let Some(fb) = full_before.get(u) {
+                                let fa = full_view(e);
+                                for (a, v) in fb {
+                                    if C48_DERIVED.contains(&a.as_str()) {
+                                        continue;
+                                    }
+                                    match fa.get(a) {
+                                        Some(v2) if v2 == v => {}
+                                        other => out.violate("C48", "user-values-kept", &format!("attribute {a} of a user-created entry changed {tag}"), format!("{tag}: {u} {a}: {v} -> {other:?}"), 0),
+                                    }
+                                }
+                            }
                             let now = user_view(e);
                             for (a, vals) in view {
                                 let have = now.get(a).cloned().unwrap_or_default();
